@@ -350,9 +350,14 @@ def static_gate():
     return bad
 
 
-def source_obligation(name: str, translate, template: str, theorems: list[str]):
+REAL_AXIOMS = ("ClassicalDedekindReals.sig_not_dec", "ClassicalDedekindReals.sig_forall_dec",
+               "FunctionalExtensionality.functional_extensionality_dep", "Classical_Prop.classic")
+
+
+def source_obligation(name: str, translate, template: str, theorems: list[str], allowed_axioms=()):
     """returns a callable: translate /repo's current source to Gallina (translate(REPO) -> text), append the fixed proof
-    script coq/templates/<template>, compile; ok iff coqc accepts the file and every theorem is closed"""
+    script coq/templates/<template>, compile; ok iff coqc accepts the file and every theorem is closed under the global
+    context — or, when `allowed_axioms` is given (theorems over Coq's reals), depends on no axiom outside that list"""
     def run():
         os.makedirs(GEN, exist_ok=True)
         path = os.path.join(GEN, f"{name}.v")
@@ -376,9 +381,21 @@ def source_obligation(name: str, translate, template: str, theorems: list[str]):
             if os.path.exists(q):
                 os.remove(q)
         closed = out.count("Closed under the global context")
+        summary = "Closed under the global context"
+        if allowed_axioms:
+            blocks = [b for b in re.split(r"(?=Closed under the global context|Axioms:)", out)
+                      if b.startswith(("Closed", "Axioms"))]
+            used = set()
+            for b in blocks:
+                if b.startswith("Axioms:"):
+                    used |= {ln.split()[0] for ln in b.splitlines()[1:] if ln.strip() and not ln[0].isspace()}
+            extra = sorted(used - set(allowed_axioms))
+            closed = len(blocks) if not extra else -1
+            summary = ("axioms of the standard library only: " + ", ".join(sorted(used))) if not extra else \
+                ("axioms outside the allowed list: " + ", ".join(extra))
         res.update(ok=(rc == 0 and closed == len(theorems)), stage="coqc",
                    source_sha256=hashlib.sha256(text.encode()).hexdigest(),
-                   print_assumptions="Closed under the global context" if closed == len(theorems) else out[-800:],
+                   print_assumptions=summary if closed == len(theorems) else (summary + " | " + out[-800:]),
                    output=out[-2000:])
         return res
     return run
